@@ -27,6 +27,41 @@ def pname(n):
     return "self" if n == 99 else LETTERS[n]
 
 
+# Values bodies return.  A body script ["ret", x] with x < 9000 returns the integer x itself (100 + call id: unique, so
+# that the provenance of a served value is visible); x >= 9001 names a *payload* - a value kind a cache must store
+# and serve like any other, in particular None and the other falsy values.  The digest maps returned objects back to
+# their codes by exact type and value.
+PAYLOADS = {9001: lambda: None, 9002: lambda: 0, 9003: lambda: False, 9004: lambda: "", 9005: lambda: (),
+            9006: lambda: [], 9007: lambda: (None,), 9008: lambda: 2 ** 70, 9009: lambda: 0.0, 9010: lambda: {}}
+
+
+def payload(x):
+    f = PAYLOADS.get(x)
+    return x if f is None else f()
+
+
+def encode(v):
+    """the code of a returned object; None if it is nothing a body of this harness returns"""
+    if v is None:
+        return 9001
+    t = type(v)
+    if t is bool:
+        return 9003 if v is False else None
+    if t is int:
+        return 9002 if v == 0 else 9008 if v == 2 ** 70 else (v if v < 9000 else None)
+    if t is str:
+        return 9004 if v == "" else None
+    if t is tuple:
+        return 9005 if v == () else 9007 if (len(v) == 1 and v[0] is None) else None
+    if t is list:
+        return 9006 if v == [] else None
+    if t is float:
+        return 9009 if v == 0.0 else None
+    if t is dict:
+        return 9010 if v == {} else None
+    return None
+
+
 class VErr(Exception):
     def __init__(self, i):
         Exception.__init__(self, i)
@@ -88,7 +123,7 @@ def run(c):
             H.inflight.discard((c["id"], c.get("inst")))
     kind, x = c["body"]
     if kind == "ret":
-        return x
+        return payload(x)
     raise VErr(x)
 
 
@@ -391,14 +426,15 @@ def digest(case, log):
             elif comp:
                 e = comp[0]
                 if e[0] == "ret":
-                    if op["op"] == "finish":
-                        r = {"RDone": [e[2]]} if e[2] is not None else "RNone"
-                    elif didrun:
-                        r = {"RMiss": [e[2]]} if e[2] is not None else "RNone"
-                    else:
-                        r = {"RHit": [e[2]]} if e[2] is not None else "RNone"
-                    if e[2] is not None and not isinstance(e[2], int):
+                    v = encode(e[2])
+                    if v is None:
                         r = {"RUnexpected": [{"s": repr(e[2])[:40]}]}
+                    elif op["op"] == "finish":
+                        r = {"RDone": [v]}
+                    elif didrun:
+                        r = {"RMiss": [v]}
+                    else:
+                        r = {"RHit": [v]}
                 else:
                     if isinstance(e[2], int):
                         r = {"RRaise": [e[2]]}
